@@ -34,16 +34,22 @@ def run (enc : Enc) (conv : Conv) (ch : Nat) : Option (List Peak) → Int → Li
   | pk, _, [] => pk
   | pk, wpos, (ty, data) :: cs => run enc conv ch (upd pk enc conv ch wpos ty data) (wpos + (data.length : Int) / ch) cs
 
+/-- the same under the rules before the repairs (`Sf.peakUpdateOld`) -/
+def updOld (pk : Option (List Peak)) (enc : Enc) (conv : Conv) (ch : Nat) (wpos : Int) (ty : Ty) (vals : List Int) :
+    Option (List Peak) :=
+  peakUpdateOld { store := 0, mode := .w, container := .wav, enc := enc, big := false, ch := ch, sr := 0, fmtWord := 0,
+                  frames := 0, lastOp := .w, peak := pk, conv := conv, wpos := wpos } ty vals
+
+def runOld (enc : Enc) (conv : Conv) (ch : Nat) : Option (List Peak) → Int → List (Ty × List Int) → Option (List Peak)
+  | pk, _, [] => pk
+  | pk, wpos, (ty, data) :: cs => runOld enc conv ch (updOld pk enc conv ch wpos ty data) (wpos + (data.length : Int) / ch) cs
+
 /-! ## the chunk -/
 
 inductive Kind | wavLE | wavBE | aiff | caf
 deriving Repr, DecidableEq, Inhabited
 
 def u64be (v : Int) : List Byte := beBytes 8 (wrapU 64 v)
-
-/-- the `f` of psf_binheader_writef goes through float32_le_write / float32_be_write, which leave the zeroed field
-    untouched when `fabs (in) < 1e-30` (0x0DA2425F is the largest binary32 below the double 1e-30) -/
-def wrF32 (b : Nat) : Nat := if b % 2 ^ 31 < 0x0DA24260 then 0 else b
 
 /-- wavlike_write_peak_chunk / aiff_write_header / caf_write_header: timestamp = the harness' pinned clock,
     CAF edit count 0.  `'t8'` in the WAV/AIFF format strings writes the low 32 bits of the 64-bit position. -/
